@@ -51,8 +51,9 @@ Section Relax.
 
   (* NpmRelaxer.Relax. c_ok: a constraint could be obtained (requirement parses, or it is a tag
      with a matching version that parses); verr: cl.Versions failed; vers: concrete versions
-     sorted by semver.NPM.Compare. None = (req, false). *)
-  Definition relax_npm (l : level) (c_ok verr : bool) (vers : list V) : option (rop * V) :=
+     sorted by semver.NPM.Compare; base: the version the requirement resolves to (the last of
+     cl.MatchingVersions) when it lies below the highest match, else None. None = (req, false). *)
+  Definition relax_npm (l : level) (c_ok verr : bool) (base : option V) (vers : list V) : option (rop * V) :=
     if level_eqb l LNone then None
     else if negb c_ok then None
     else if verr then None
@@ -61,10 +62,11 @@ Section Relax.
       | (_, None, _) => None
       | (None, Some _, _) => None
       | (Some lst, Some (nx, above), next_pre) =>
-          let d := dif_or_other lst nx in
+          let from := match base with Some b => b | None => lst end in
+          let d := dif_or_other from nx in
           if negb (allows l d) then None
           else
-            let '(cmpv, d0) := if diff_eqb d DiffMajor then (nx, DiffMinor) else (lst, d) in
+            let '(cmpv, d0) := if diff_eqb d DiffMajor then (nx, DiffMinor) else (from, d) in
             let best := best_loop l cmpv d0 next_pre above nx in
             Some (if Z.leb (diff_code DiffPatch) (diff_code d0) then Tilde else Caret, best)
       end.
@@ -73,6 +75,10 @@ Section Relax.
   (* the version the old requirement resolves to: the highest parsing, matching version *)
   Definition highest_match (vers : list V) : option V :=
     find (fun v => parses v && matches v) (rev vers).
+
+  (* the version the upgrade is measured from *)
+  Definition relax_from (base : option V) (vers : list V) : option V :=
+    match base with Some b => Some b | None => highest_match vers end.
 
   Variable cmp : V -> V -> comparison.      (* semver.NPM.Compare *)
 
